@@ -951,6 +951,12 @@ impl<T: B> Entry for E<T> {
         T::edges(t).len()
     }
     fn lint(&self) -> Result<(), String> {
+        // Building and rendering a list goes through roto's own List::push /
+        // to_vec (code under test): list types are not linted, their edge
+        // lists are distinct by construction when the payload's are.
+        if T::roto().contains("List[") {
+            return Ok(());
+        }
         let ev = T::edges(Tier::Quick);
         let mut seen = std::collections::HashSet::new();
         let mut lits = std::collections::HashSet::new();
